@@ -562,7 +562,8 @@ func (se *SessionExecutor) recycleBackendConn(pc backend.PooledConnect) {
 	}
 
 	if pc.IsClosed() {
-		se.recycleTx()
+		se.recycleTx(pc)
+		se.forgetKsConn(pc)
 		pc.Recycle()
 		return
 	}
@@ -589,7 +590,8 @@ func (se *SessionExecutor) recycleContinueConn(pc backend.PooledConnect) {
 		return
 	}
 	if pc.IsClosed() {
-		se.recycleTx()
+		se.recycleTx(pc)
+		se.forgetKsConn(pc)
 		pc.Recycle()
 		return
 	}
@@ -1501,13 +1503,34 @@ func (se *SessionExecutor) handleSavepoint(stmt *ast.SavepointStmt) (err error) 
 	return
 }
 
-func (se *SessionExecutor) recycleTx() {
+// recycleTx ends the transaction's hold on its connections after one of them (broken, recycled by
+// the caller) was lost: the others are rolled back and given back to their pools.
+func (se *SessionExecutor) recycleTx(broken backend.PooledConnect) {
 	if !se.isInTransaction() {
 		return
 	}
 	se.txLock.Lock()
 	defer se.txLock.Unlock()
+	for _, pc := range se.txConns {
+		if pc == broken {
+			continue
+		}
+		if !pc.IsClosed() {
+			pc.Rollback()
+		}
+		pc.Recycle()
+	}
 	se.txConns = make(map[string]backend.PooledConnect)
+}
+
+// forgetKsConn drops a broken keep-session connection from the session, so that it is not
+// closed and recycled a second time when the client quits.
+func (se *SessionExecutor) forgetKsConn(broken backend.PooledConnect) {
+	for name, pc := range se.ksConns {
+		if pc == broken {
+			delete(se.ksConns, name)
+		}
+	}
 }
 
 // handleKQuit close backend connection and recycle, only called when client exit
